@@ -6,6 +6,9 @@ mod dev;
 mod file;
 mod page;
 mod util;
+mod ext {
+    include!(concat!(env!("OUT_DIR"), "/ext.rs"));
+}
 
 use std::io::{BufRead, Write};
 
@@ -38,7 +41,7 @@ fn main() {
                 "BITS" => bits::run_bits(&toks[1..]),
                 "BW" => bits::run_bw(&toks[1..]),
                 "BR" => bits::run_br(&toks[1..]),
-                k => format!("unknown-kind {}", k),
+                k => ext::dispatch(k, &toks[1..]).unwrap_or_else(|| format!("unknown-kind {}", k)),
             }
         };
         writeln!(out, "{}", res).unwrap();
